@@ -198,6 +198,22 @@ type vfSockCase struct {
 	Cont     bool     `json:"cont"`
 	Items    []vfItem `json:"items"`
 	Chunks   []int    `json:"chunks"` // segment sizes (cycled); empty = lock step per frame
+	// Fast: the sender does not wait for a new wall-clock millisecond between frames, so a recording can end and
+	// the next one start within the millisecond their names are stamped with
+	Fast bool `json:"fast,omitempty"`
+	// OutName: name of the output directory below the scratch directory ("" = "out"); may contain the
+	// extensions the recorder uses for its own files
+	OutName string `json:"out_name,omitempty"`
+}
+
+var vfOutNames = []string{"", "", "", "rec.temp", "a.cptv.temp.d", "spool.temp/recordings", "x y", "cptv", "constant-recordings"}
+
+func (c vfSockCase) outDir(dir string) string {
+	n := c.OutName
+	if n == "" {
+		n = "out"
+	}
+	return filepath.Join(dir, filepath.FromSlash(n))
 }
 
 type vfLogBuf struct {
@@ -277,6 +293,13 @@ func vfSockValid(c vfSockCase) string {
 	if c.Min < 0 || c.Max < c.Min || c.Prev < 0 || c.Trigger < 0 || c.Prev*cam.FPS+c.Trigger < 1 || len(c.Items) > 1500 {
 		return "configuration outside the domain"
 	}
+	okName := false
+	for _, n := range vfOutNames {
+		okName = okName || n == c.OutName
+	}
+	if !okName {
+		return "output directory name outside the list"
+	}
 	if cam.Brand != "flir" || (cam.Model != "lepton3" && cam.Model != "lepton3.5" && cam.Model != "boson") {
 		return "unsupported camera"
 	}
@@ -291,8 +314,8 @@ func vfRunSock(c vfSockCase) *vfSockOut {
 		panic(err)
 	}
 	defer os.RemoveAll(dir)
-	out := filepath.Join(dir, "out")
-	os.Mkdir(out, 0755)
+	out := c.outDir(dir)
+	os.MkdirAll(out, 0755)
 	conf := vfConf{DeviceName: "sock", Min: c.Min, Max: c.Max, Prev: c.Prev, Cont: c.Cont, MinDiskMB: 1, BucketS: 600, RefillS: 600,
 		WinStart: "12:00", WinEnd: "12:00", Motion: vfSimpleMotion(c.Trigger, c.Edge)}
 	if err := vfWriteConfig(dir, out, conf); err != nil {
@@ -313,6 +336,7 @@ func vfRunSock(c vfSockCase) *vfSockOut {
 		return o
 	}
 	log.SetOutput(lb) // vfStartConn may have redirected it
+	conn.fast = c.Fast
 	level := false
 	id := 0
 	type seg struct {
@@ -390,7 +414,7 @@ func vfRunSock(c vfSockCase) *vfSockOut {
 				o.logs = lb.String()
 				return o
 			}
-			if ei < len(ends) && end >= ends[ei] {
+			if ei < len(ends) && end >= ends[ei] && !c.Fast {
 				t0 := time.Now().UnixNano() / 1e6
 				for time.Now().UnixNano()/1e6 <= t0+1 {
 					time.Sleep(200 * time.Microsecond)
@@ -486,6 +510,8 @@ func vfGenSockBase(t *rapid.T, bad, clear bool) vfSockCase {
 	c.Min = rapid.IntRange(1, 2).Draw(t, "min") // >= 1 s so that two recordings never start within a millisecond
 	c.Max = c.Min + rapid.IntRange(0, 2).Draw(t, "maxx")
 	c.Trigger = rapid.IntRange(1, 2).Draw(t, "trigger")
+	c.Fast = rapid.IntRange(0, 2).Draw(t, "fast") == 0
+	c.OutName = rapid.SampledFrom(vfOutNames).Draw(t, "outname")
 	nseg := rapid.IntRange(2, 8).Draw(t, "nseg")
 	for s := 0; s < nseg; s++ {
 		switch rapid.IntRange(0, 6).Draw(t, "seg") {
@@ -548,6 +574,14 @@ func vfGenC13Sock(t *rapid.T) vfSockCase {
 	at := rapid.IntRange(0, len(c.Items)).Draw(t, "badat")
 	run := []vfItem{{K: vfItFrame}, {K: vfItFrame, On: true}, {K: vfItFrame, On: true}, {K: vfItBad}, {K: vfItFrame, On: true}, {K: vfItFrame, On: true}, {K: vfItFrame}}
 	c.Items = append(c.Items[:at], append(run, c.Items[at:]...)...)
+	if c.Fast {
+		// recordings of a single frame back to back: a motion frame that starts one, a bad frame that ends it
+		c.Items = append(c.Items, vfItem{K: vfItFrame})
+		for i := rapid.IntRange(2, 12).Draw(t, "pairs"); i > 0; i-- {
+			c.Items = append(c.Items, vfItem{K: vfItFrame, On: true}, vfItem{K: vfItBad})
+		}
+		c.Items = append(c.Items, vfItem{K: vfItFrame})
+	}
 	return c
 }
 
